@@ -3,7 +3,7 @@ from fractions import Fraction
 
 import compat  # noqa: F401
 from props.c03 import (ACC_TYPES, CONV_PROBES, ELEM, SchedProp, gen_backtrack_case, gen_checks, gen_pass_case, gen_pass_conv_case,
-                       gen_pass_expr_case, template_of, gen_random_sched, gen_rows, gen_template, mk_checks, mk_sched,
+                       gen_pass_expr_case, gen_template_case, template_of, gen_random_sched, gen_rows, gen_template, mk_checks, mk_sched,
                        mk_tmpl, of_sched)
 
 ENTRIES_BELOW = 1000   # clause of the correspondence claim for the floating-point matcher (finding D27)
@@ -358,6 +358,9 @@ class C16(SchedProp):
             yield gen_backtrack_case(rng, tier)
         # the real dart-scheduler pass: what it EMITS must fit the accelerator's template and satisfy the two constraints the
         # pass requests (with the operands' element sizes), for every operation of the module
+        # get_template of the accelerators against the model's tables (all body shapes, non-default array geometry)
+        for _ in range(60 if tier == "quick" else 1500):
+            yield gen_template_case(rng)
         yield from CONV_PROBES
         for _ in range(14 if tier == "quick" else 250):
             yield gen_pass_conv_case(rng)
@@ -397,6 +400,22 @@ class C16(SchedProp):
                                     f"{'equal' if exact else 'different'} (exact rational arithmetic)"
                                     + (" [|entries| >= 1000]" if big else ""),
                             "finding": ("D27" if exact else "D27b") if big else None})
+        elif kind == "template":
+            # what a template must be, independently of model and code: one pattern per stream of the kernel chain, every
+            # pattern over the array's dims, bounds = the array geometry, matmul operands A[m,k] B[k,n] C[m,n]
+            t = impl_out["template"]
+            g = case.get("geom") or [8, 8, 8]
+            if case["acc"] == "snax_alu":
+                want = {"bounds": [4], "ops": [{"A": [[1]], "b": [0]}] * 3}
+            elif case["body"] and case["body"][0] in ("qmac", "mac"):
+                mk, kn, mn = [[1, 0, 0], [0, 0, 1]], [[0, 0, 1], [0, 1, 0]], [[1, 0, 0], [0, 1, 0]]
+                want = {"bounds": g, "ops": [{"A": a, "b": [0, 0]} for a in ([mk, kn, mn] + ([mn] if "add" in case["body"] else []))]}
+            else:
+                want = {"bounds": [g[0], g[2]], "ops": [{"A": [[1, 0], [0, 1]], "b": [0, 0]}] * 2}
+            if t != want:
+                out.append({"what": f"get_template of {case['acc']} (array {g}, kernels {case.get('body')}) returns bounds {t['bounds']}, "
+                                    f"patterns {[o['A'] for o in t['ops']]} instead of bounds {want['bounds']}, patterns "
+                                    f"{[o['A'] for o in want['ops']]}", "finding": None})
         elif kind == "pass":
             scheds = impl_out["schedules"]
             if len(scheds) != len(case["ops"]):
@@ -482,6 +501,8 @@ class C16(SchedProp):
             return impl_out["result"] != case["s"]
         if case["kind"] == "pass":
             return any("unscheduled" not in x for x in impl_out["schedules"])
+        if case["kind"] == "template":
+            return True
         return len(impl_out["results"]) > 0
 
 
